@@ -193,6 +193,7 @@ def seed_positions(prog, r):
                 acc = sc.accessible()
                 cands = [t for t in prog.ents if t.kind == "type" and t.name.lower() not in acc and t.scope is not None and t.scope.kind == "module"
                          and not fws.leak_through_private_module(sc, t)
+                         and not fws.hidden_by_rename_list(sc, t.name, t)  # known C05 finding: the hidden name still resolves
                          and not (t.vis == "private" or (t.vis is None and t.scope.default_private))]
                 if cands:
                     t = sorted(cands, key=lambda x: x.id)[0]
